@@ -6,26 +6,16 @@ From Coq Require Import List Bool String.
 From TV Require Import Base.Prelude Base.C18_Lib Model.C18_Conc Model.C18_LockSteps Gen.Locks.
 Import ListNotations.
 
-(* BaseDB.keys() takes `self.db.keys()` under the lock but iterates the result after the
-   release: for an in-memory database that is a live view of the dict (finding, see
-   design/C18.md); every other analysed method respects the discipline. *)
-Definition is_db_keys (m : xmethod) : bool :=
-  let '(c, n, _) := m in String.eqb c "VerifierDB" && String.eqb n "keys".
-
-Lemma extracted_methods_ok_but_keys :
-  forallb (fun m => is_db_keys m || method_ok all_methods m) all_methods = true.
+(* Before the fix "BaseDB.keys() must copy the key view while holding the lock" (commit d3942bb)
+   this held for every method except VerifierDB.keys, which iterated a live view of self.db after
+   releasing the lock (then: extracted_lock_discipline_refuted / _partial). *)
+Lemma extracted_methods_ok : all_methods_ok all_methods = true.
 Proof. vm_compute. reflexivity. Qed.
 
-Lemma extracted_partial : forall m, In m all_methods -> is_db_keys m = false -> method_ok all_methods m = true.
+Lemma extracted_each : forall m, In m all_methods -> method_ok all_methods m = true.
 Proof.
-  intros m Hin Hk. pose proof extracted_methods_ok_but_keys as H. rewrite forallb_forall in H.
-  specialize (H m Hin). rewrite Hk in H. exact H.
-Qed.
-
-Lemma extracted_refuted : exists m, In m all_methods /\ method_ok all_methods m = false.
-Proof.
-  exists ("VerifierDB", "keys", VerifierDB_keys)%string. split; [|vm_compute; reflexivity].
-  unfold all_methods. repeat (try (left; reflexivity); right).
+  intros m Hin. pose proof extracted_methods_ok as H. unfold all_methods_ok in H.
+  rewrite forallb_forall in H. exact (H m Hin).
 Qed.
 
 (* the analysed set is the one the property names (nothing silently dropped by the extractor) *)
